@@ -949,7 +949,7 @@ class SMPose(SMUserList):
             >>> SE3.Rx(pi/2) * np.r_[0, 0, 1]
             array([ 0.000000e+00, -1.000000e+00,  6.123234e-17])
         """
-        if isinstance(left, right.__class__):
+        if type(left) == type(right):
             #print('*: pose x pose')
             return left.__class__(left._op2(right, lambda x, y: x @ y), check=False)
 
@@ -1082,7 +1082,7 @@ class SMPose(SMUserList):
         =========   ==========   ====  =====================================
 
         """
-        if isinstance(left, right.__class__):
+        if type(left) == type(right):
             return left.__class__(left._op2(right.inv(), lambda x, y: x @ y), check=False)
         elif base.isscalar(right):
             return left._op2(right, lambda x, y: x / y)
@@ -1378,6 +1378,8 @@ class SMPose(SMUserList):
                 return op(left.A, right)
             else:
                 return [op(x, right) for x in left.A]
+        else:
+            raise ValueError('bad operands')
 
 if __name__ == "__main__":
     from spatialmath import SE3
